@@ -37,7 +37,23 @@ def _work(args):
     out = {"t": t, "diffs": [], "nodes": 0, "queries": 0, "error": None, "extra_columns": None}
     try:
         a = symdag.Dag(date, targets=[t])
-        if minimal == "sibling":
+        if minimal == "override-target":
+            # a computed ancestor b of t is supplied as data; targets [t] vs [t, b].  Requesting a target that is
+            # also a data column is an error on the pinned tree (loud: nothing to compare); if it computes, t must not
+            # depend on whether b was requested
+            import networkx as nx
+            anc = sorted(n for n in nx.ancestors(a.graph, t) if n in a.funcs and a.kind(n) == "rule")
+            if not anc:
+                return out
+            bcol = anc[len(anc) // 2]
+            out["extra_columns"] = [bcol]
+            a = symdag.Dag(date, targets=[t], data_cols=[*TYPES_INPUT_VARIABLES, bcol])
+            try:
+                b = symdag.Dag(date, targets=[t, bcol], data_cols=[*TYPES_INPUT_VARIABLES, bcol])
+            except Exception as e:   # noqa: BLE001 -- loud refusal of the second target set
+                out["refused"] = type(e).__name__
+                return out
+        elif minimal == "sibling":
             # an additional, unused data column whose name is a time-unit sibling of a rule in the cone of t and
             # that nothing in the cone reads: the documented inputs plus that column
             extra = sibling_columns(a, t)
@@ -200,6 +216,8 @@ def run(tier):
             jobs.append((date, t, None, True))
         for t in pick[: (10 if tier == "quick" else 80)]:
             jobs.append((date, t, None, "sibling"))
+        for t in pick[: (10 if tier == "quick" else 80)]:
+            jobs.append((date, t, None, "override-target"))
     with multiprocessing.get_context("fork").Pool(common.JOBS) as pool:
         results = pool.map(_work, jobs, chunksize=1)
     for job, res in zip(jobs, results):
@@ -207,7 +225,8 @@ def run(tier):
         ck.obligations += 1
         ck.queries += res["queries"]
         ck.nontrivial.add((t, minimal))
-        cfg = ("documented inputs vs the same plus unused columns named like time-unit siblings of rules in the cone: "
+        cfg = (f"computed ancestor {res.get('extra_columns')} supplied as data: targets [t] vs [t, that column]" if minimal == "override-target" else
+               "documented inputs vs the same plus unused columns named like time-unit siblings of rules in the cone: "
                f"{res.get('extra_columns')}" if minimal == "sibling" else
                "only required columns vs all documented inputs" if minimal else f"S={{t}} vs S'=DEFAULT+{{t,{other}}}")
         if len(ck.samples) < 8:
